@@ -399,6 +399,7 @@ func RunW2(opt *W2Opt, plan, sched *simrt.Source, trace bool) *RunOut {
 			c.Method = MPoolEMMulti
 		}
 		c.HasOpt = g.Pct(opt.OptPct)
+		c.OddKeys = g.Pct(12)
 		if HasTag(c.Method) && g.Pct(opt.NilTagPct) {
 			w.NilTag[c.Idx] = true
 		}
@@ -499,7 +500,7 @@ func RunW2(opt *W2Opt, plan, sched *simrt.Source, trace bool) *RunOut {
 	for _, c := range sc.Calls {
 		for id, pl := range c.Plan {
 			rd := sc.Rule(id)
-			if pl.Fire >= 0 && pl.Fire < len(rd.Secs) && rd.Secs[pl.Fire].Kind == SecUnb {
+			if pl.Fire >= 0 && pl.Fire < len(rd.Secs) && (rd.Secs[pl.Fire].Kind == SecUnb || rd.Secs[pl.Fire].Kind == SecUnbCont) {
 				cfg.StepCap = 5000000
 			}
 		}
